@@ -7,3 +7,58 @@ pub const EXPLICIT_FARM_ID_PREFIX: &str = "m-";
 
 /// The prefix used when creation a farm with an auto-generated ID
 pub const AUTO_FARM_ID_PREFIX: &str = "f-";
+
+/// Verification hooks: thin public wrappers around crate-private functions. Compiled only with
+/// `--features verif-hooks`; never part of a production build.
+#[cfg(feature = "verif-hooks")]
+pub mod verif_api {
+    use std::collections::HashMap;
+
+    use cosmwasm_std::{Addr, Deps, Env, Storage, Uint128};
+    use mantra_dex_std::farm_manager::{EpochId, RewardsResponse};
+
+    use crate::ContractError;
+
+    pub fn compute_address_weights(
+        storage: &dyn Storage,
+        address: &Addr,
+        lp_asset_denom: &str,
+        start_from_epoch: &EpochId,
+        current_epoch_id: &EpochId,
+    ) -> Result<HashMap<EpochId, Uint128>, ContractError> {
+        super::commands::compute_address_weights(
+            storage,
+            address,
+            lp_asset_denom,
+            start_from_epoch,
+            current_epoch_id,
+        )
+    }
+
+    pub fn compute_contract_weights(
+        storage: &dyn Storage,
+        contract: &Addr,
+        lp_asset_denom: &str,
+        start_from_epoch: &EpochId,
+        current_epoch_id: &EpochId,
+    ) -> Result<HashMap<EpochId, Uint128>, ContractError> {
+        super::commands::compute_contract_weights(
+            storage,
+            contract,
+            lp_asset_denom,
+            start_from_epoch,
+            current_epoch_id,
+        )
+    }
+
+    pub fn calculate_rewards(
+        deps: Deps,
+        env: &Env,
+        lp_denom: &str,
+        receiver: &Addr,
+        until_epoch_id: EpochId,
+        is_claim: bool,
+    ) -> Result<RewardsResponse, ContractError> {
+        super::commands::calculate_rewards(deps, env, lp_denom, receiver, until_epoch_id, is_claim)
+    }
+}
